@@ -230,3 +230,10 @@ def rules(t, *a, **kw):
     out.append(W6.stale_index(t, "C16.n"))
     out.append(W6.ack_record_value(t, "C16.o"))
     return out
+
+_rules_C16_w7 = rules
+def rules(t, *a, **kw):
+    import rules.wave7 as W7
+    out = _rules_C16_w7(t, *a, **kw)
+    out.append(W7.count_not_position(t, "C16.p"))
+    return out
